@@ -17,6 +17,7 @@ package main
 import (
 	"errors"
 	"fmt"
+	"strings"
 
 	"github.com/blinklabs-io/gouroboros/cbor"
 	"github.com/blinklabs-io/gouroboros/ledger"
@@ -61,6 +62,17 @@ func g10aCandidates() [][]*cnode {
 		{cNull()},
 		{cT("x")},
 		{cB([]byte{1, 2, 3})},
+		// GetCBOR: [9, <inner leaf query>]
+		{cA(cU(1))},
+		{cA(cU(0))},
+		// three sets (committee members state)
+		{cA(), cA(), cA()},
+		{cTag(258, cA()), cTag(258, cA()), cTag(258, cA())},
+		{cTag(258, cA()), cTag(258, cA())},
+		{cTag(258, cA())},
+		{cA(cTag(258, cA()))},
+		{cU(0)},
+		{cU(1)},
 	}
 }
 
@@ -68,12 +80,16 @@ func g10aProbe(st *sumType) {
 	cands := g10aCandidates()
 	seen := map[uint64]bool{}
 	for tag := uint64(0); tag <= g10aProbeTags; tag++ {
-		found, anyOk := false, false
+		found, anyOk, allUnknown := false, false, true
 		for _, body := range cands {
 			v := sumVariant{tag, bodyOf(body...)}
 			root, _ := st.build(v)
 			lab, err := g10aSafeDecode(st, root.bytes())
 			if err != nil {
+				// "unknown ... type" from the decoder's own dispatch = the tag is not a variant at all
+				if !strings.Contains(strings.ToLower(err.Error()), "unknown") {
+					allUnknown = false
+				}
 				continue
 			}
 			anyOk = true
@@ -84,7 +100,7 @@ func g10aProbe(st *sumType) {
 			found = true
 			break
 		}
-		if !found && !anyOk {
+		if !found && !anyOk && (!allUnknown || st.deflt != "") {
 			st.unsure = append(st.unsure, tag)
 		}
 		seen[tag] = true
